@@ -21,10 +21,12 @@ def _ts(ctx):
 
 
 def _entries_mutations(f):
-    """statements in f that change the list self._entries."""
+    """statements in f that change the list self._entries (also through a local alias `entries = self._entries`)."""
+    from ..astutil import alias_map, expand_alias
+    al = alias_map(f.node)
     out = []
     for n in walk_local(f.node):
-        if isinstance(n, ast.Expr) and isinstance(n.value, ast.Call) and isinstance(n.value.func, ast.Attribute) and norm(n.value.func.value) == "self._entries" and n.value.func.attr in cfgmod.MUTATOR_METHODS:
+        if isinstance(n, ast.Expr) and isinstance(n.value, ast.Call) and isinstance(n.value.func, ast.Attribute) and norm(expand_alias(n.value.func.value, al)) == "self._entries" and n.value.func.attr in cfgmod.MUTATOR_METHODS:
             out.append(n)
         elif isinstance(n, (ast.Assign, ast.AnnAssign, ast.AugAssign)):
             tg = n.targets if isinstance(n, ast.Assign) else [n.target]
@@ -37,8 +39,20 @@ def _entries_mutations(f):
     return out
 
 
-def _is_rebind(st) -> bool:
-    return isinstance(st, ast.Assign) and len(st.targets) == 1 and norm(st.targets[0]) == "self.get" and norm(st.value) == "self._entries[-1].get"
+def _is_rebind(st, cls=None, fn=None) -> bool:
+    """`self.get = self._entries[-1].get` (temporaries inlined), or a call of a same-class helper that does this on every path"""
+    from ..astutil import inline, single_defs
+    if isinstance(st, ast.Assign) and len(st.targets) == 1 and norm(st.targets[0]) == "self.get":
+        v = inline(st.value, single_defs(fn.node)) if fn is not None else st.value
+        return norm(v) == "self._entries[-1].get"
+    if cls is not None and isinstance(st, ast.Expr) and isinstance(st.value, ast.Call) and isinstance(st.value.func, ast.Attribute) and isinstance(st.value.func.value, ast.Name) and st.value.func.value.id == "self" and not st.value.args:
+        h = cls.method(st.value.func.attr)
+        if h is not None and h is not fn:
+            g = cfgmod.build(h.node, lambda n: False)
+            reb = {nd.id for nd in g.stmt_nodes() if nd.kind == "stmt" and _is_rebind(nd.stmt, None, h)}
+            muts = _entries_mutations(h)
+            return bool(reb) and not muts and g.must_pass(g.entry, reb, {g.exit}) is None
+    return False
 
 
 def r20_1(ctx):
@@ -56,7 +70,7 @@ def r20_1(ctx):
             if not muts:
                 continue
             g = cfgmod.build(f.node)
-            rebinds = {nd.id for nd in g.stmt_nodes() if nd.kind == "stmt" and _is_rebind(nd.stmt)}
+            rebinds = {nd.id for nd in g.stmt_nodes() if nd.kind == "stmt" and _is_rebind(nd.stmt, c, f)}
             for m in muts:
                 n += 1
                 for nid in g.nodes_of(m):
@@ -132,42 +146,54 @@ def r20_2(ctx):
 
 
 def r20_3(ctx):
-    ctx.rule("R20.3", "inheritance polarity and precedence: with inherit the new entry unpacks the previous top first and the theme's styles second (theme wins, earlier themes show through); without inherit it contains only the theme's styles")
+    from ..yieldpaths import Unsupported, paths_of, resolve, select
+    ctx.rule("R20.3", "inheritance polarity and precedence (decided on the path normal form: conditional expression or if statement, with or without temporaries): with inherit the entry pushed is {**previous top, **theme.styles} (theme wins, earlier themes show through); without inherit it contains only the theme's styles")
     c = _ts(ctx)
     push = c.method("push_theme")
     theme_p, inh_p = push.params[1], push.params[2] if len(push.params) > 2 else None
     if inh_p is None:
         raise AnchorVanished("ThemeStack.push_theme has no inherit parameter")
-    found = False
-    for n in walk_local(push.node):
-        if isinstance(n, ast.IfExp):
-            t = n.test
-            pos, neg = n.body, n.orelse
-            if isinstance(t, ast.UnaryOp) and isinstance(t.op, ast.Not):
-                t, pos, neg = t.operand, n.orelse, n.body
-            if not (isinstance(t, ast.Name) and t.id == inh_p):
-                continue
-            found = True
-            where = f"{push.module.relpath}:{n.lineno}"
-            okp = isinstance(pos, ast.Dict) and len(pos.keys) == 2 and all(k is None for k in pos.keys) and norm(pos.values[0]) == "self._entries[-1]" and norm(pos.values[1]) == f"{theme_p}.styles"
-            ctx.check(okp, push.fq, f"inherit: {short(pos)}", where, "inherit=True: {**previous top, **theme.styles}",
-                      f"with inherit the entry is `{norm(pos)}`: not the previous top overlaid by the theme's styles (wrong precedence, or inheritance lost)")
-            okn = norm(neg) in (f"{theme_p}.styles.copy()", f"dict({theme_p}.styles)", "{**" + theme_p + ".styles}")
-            ctx.check(okn, push.fq, f"no inherit: {short(neg)}", where, "inherit=False: only the theme's styles",
-                      f"without inherit the entry is `{norm(neg)}`: not exactly the theme's own styles")
-    if not found:
-        # if/else statement form
-        for n in walk_local(push.node):
-            if isinstance(n, ast.If) and norm(n.test) in (inh_p, f"not {inh_p}"):
-                found = True
-                ctx.note("push_theme uses an if statement; polarity checked on the dict displays in each arm")
-                arms = (n.body, n.orelse) if norm(n.test) == inh_p else (n.orelse, n.body)
-                pos_src = " ".join(norm(x) for x in arms[0])
-                neg_src = " ".join(norm(x) for x in arms[1])
-                ctx.check("**self._entries[-1], **" + theme_p + ".styles" in pos_src, push.fq, "inherit arm", f"{push.module.relpath}:{n.lineno}", "inherit arm overlays theme on previous top", "inherit arm does not overlay the theme's styles on the previous top entry")
-                ctx.check("self._entries[-1]" not in neg_src, push.fq, "non-inherit arm", f"{push.module.relpath}:{n.lineno}", "non-inherit arm ignores previous entries", "non-inherit arm still reads the previous top entry")
-    if not found:
+    try:
+        P = [resolve(p_) for p_ in paths_of(push.node)]
+    except Unsupported as u:
+        raise AnalysisError(f"ThemeStack.push_theme: statement outside the path normal form ({u})")
+
+    def pushed(p_):
+        out = []
+        for e in p_:
+            if e[0] == "do":
+                try:
+                    v = ast.parse(e[1], mode="eval").body
+                except SyntaxError:
+                    continue
+                if isinstance(v, ast.Call) and norm(v.func) == "self._entries.append" and len(v.args) == 1:
+                    out.append(v.args[0])
+        return out
+    where = push.where
+    pos, neg = select(P, {inh_p: True}), select(P, {inh_p: False})
+    both = [p_ for p_ in P if p_ in pos and p_ in neg]
+    if both:
         ctx.violation(push.fq, "inherit unused", push.where, "push_theme does not branch on its `inherit` argument: inherit=False has no effect")
+        return
+    okp = bool(pos)
+    detail = "?"
+    for p_ in pos:
+        vs = pushed(p_)
+        detail = norm(vs[0]) if vs else "nothing pushed"
+        v = vs[0] if len(vs) == 1 else None
+        if not (isinstance(v, ast.Dict) and len(v.keys) == 2 and all(k is None for k in v.keys) and norm(v.values[0]) == "self._entries[-1]" and norm(v.values[1]) == f"{theme_p}.styles"):
+            okp = False
+    ctx.check(okp, push.fq, f"inherit: {detail}", where, "inherit=True: {**previous top, **theme.styles}",
+              f"with inherit the entry is `{detail}`: not the previous top overlaid by the theme's styles (wrong precedence, or inheritance lost)")
+    okn = bool(neg)
+    detail = "?"
+    for p_ in neg:
+        vs = pushed(p_)
+        detail = norm(vs[0]) if vs else "nothing pushed"
+        if len(vs) != 1 or norm(vs[0]) not in (f"{theme_p}.styles.copy()", f"dict({theme_p}.styles)", "{**" + theme_p + ".styles}"):
+            okn = False
+    ctx.check(okn, push.fq, f"no inherit: {detail}", where, "inherit=False: only the theme's styles",
+              f"without inherit the entry is `{detail}`: not exactly the theme's own styles")
 
 
 def r20_4(ctx):
@@ -180,15 +206,17 @@ def r20_4(ctx):
             for nd in g.stmt_nodes():
                 if nd.kind != "stmt":
                     continue
-                pops = [x for x in ast.walk(nd.stmt) if isinstance(x, ast.Call) and norm(x.func) == "self._entries.pop"]
-                dels = isinstance(nd.stmt, ast.Delete) and any("self._entries[" in norm(t) for t in nd.stmt.targets)
+                from ..astutil import inline as _inl, single_defs as _sdf
+                _sd = {k: v for k, v in _sdf(f.node).items() if norm(v) == "self._entries"}
+                pops = [x for x in ast.walk(nd.stmt) if isinstance(x, ast.Call) and norm(_inl(x.func, _sd)) == "self._entries.pop"]
+                dels = isinstance(nd.stmt, ast.Delete) and any("self._entries[" in norm(_inl(t, _sd)) for t in nd.stmt.targets)
                 if not pops and not dels:
                     continue
                 n += 1
                 facts = g.branch_facts(nd.id)
                 ok = False
                 for t, v in facts:
-                    tt = norm(t)
+                    tt = norm(_inl(t, _sd))
                     if v is False and tt in ("len(self._entries) == 1", "len(self._entries) <= 1", "len(self._entries) < 2"):
                         # true branch must raise
                         ok = True
@@ -198,7 +226,7 @@ def r20_4(ctx):
                           "an entry is popped without first refusing when only the base theme is left: the stack can become empty and every later lookup fails")
                 # the guard's other branch raises
                 for x in walk_local(f.node):
-                    if isinstance(x, ast.If) and "len(self._entries)" in norm(x.test):
+                    if isinstance(x, ast.If) and "len(self._entries)" in norm(_inl(x.test, _sd)):
                         ctx.check(any(isinstance(b, ast.Raise) for b in x.body), f.fq, f"if {norm(x.test)}: raise", f"{f.module.relpath}:{x.lineno}", "refusal raises", "the base-theme guard does not raise")
     ctx.floor(n, 1, "pops of ThemeStack._entries")
 
